@@ -22,7 +22,51 @@ def sync_jobs(mode, profiles=("dev",)):
     return f
 
 
+AD_RULE = ("scripted reader pairs (<=2-3 actions each from data-chunk/short read/scribbling read/EOF/error, streams of 0-3 bytes) x every "
+           "destination schedule of <=3 lengths from {0,1,4} (chain) / {0,1,2,4} (take) x limits {0,1,2,3,5,u64::MAX}, first = a real FixedBuf "
+           "at every read offset, plus seeded random scenarios with interleaved writes/flushes and scripted writer results "
+           "(full/partial/zero/error); three-way: implementation, real std::io::Chain/Take over twin readers, Lean model; "
+           "distinct = distinct scenario line; non-trivial = more than one call")
+
 PROPS = {
+    "C08": {
+        "module": "FBV.Props.C08",
+        "theorems": ["FBV.C08.chain_bisim", "FBV.C08.chain_eq_std", "FBV.C08.rel_new", "FBV.C08.second_not_before_eof",
+                     "FBV.C08.first_never_again", "FBV.C08.first_error_passes", "FBV.C08.bufReader_spec",
+                     "FBV.C08.Legacy.legacy_skips_first"],
+        "jobs": sync_jobs("chain"),
+        "tie": "T2 three-way (implementation, real std::io::Chain, model) over scripted reader pairs",
+        "rule": AD_RULE,
+        "level_text": ("Kernel-checked for ARBITRARY deterministic readers (any state type, short reads, errors anywhere, scribbling) and every "
+                       "destination incl. zero-length: one ReadWriteChain::read returns the same result and destination contents as std::io::Chain::read "
+                       "and leaves corresponding states (bisimulation), hence call-for-call equality over every schedule; second is untouched until first "
+                       "answers Ok(0) to a non-empty destination, first is never read again, errors pass unchanged; FixedBuf's Read impl never fails. "
+                       "The std::io::Chain reference model is itself tied to the real std::io::Chain (three-way run). The zero-length-destination defect "
+                       "found on the pinned tree is recorded as a theorem about the legacy function and was repaired by a fix: commit."),
+        "trusted_extra": ["std::io::Chain / std::io::Take modelled by hand from the pinned std source (tied three-way on every run)"],
+    },
+    "C09": {
+        "module": "FBV.Props.C09",
+        "theorems": ["FBV.C09.at_zero", "FBV.C09.offered_length", "FBV.C09.read_spec", "FBV.C09.take_eq_std", "FBV.C09.delivered_le_limit",
+                     "FBV.C09.streamReader_ok", "FBV.C09.srwReader_ok"],
+        "jobs": sync_jobs("take"),
+        "tie": "T2 three-way (implementation, real std::io::Take, model); scribbling inner readers make the offered length visible",
+        "rule": AD_RULE,
+        "level_text": ("Kernel-checked for an ARBITRARY inner reader honouring Read's contract, every limit < 2^64 and every destination, both "
+                       "overflow-check settings: Ok(0) without calling inner once the allowance is used up; inner is offered exactly min(remaining,|dest|) "
+                       "bytes; its result is returned as is; a short read uses up only what was returned, an error nothing; destination bytes beyond "
+                       "the offered length are untouched; no panic; call-for-call equal to std::io::Take; over any schedule delivered + remaining = limit."),
+        "trusted_extra": ["std::io::Take modelled by hand from the pinned std source (tied three-way on every run)"],
+    },
+    "C13": {
+        "claimed": False,
+        "module": "FBV.Props.C13",
+        "theorems": ["FBV.C13.chain_write", "FBV.C13.chain_flush", "FBV.C13.take_write", "FBV.C13.take_flush",
+                     "FBV.C13.chain_read_no_write", "FBV.C13.take_read_no_write"],
+        "jobs": (lambda tier: [{"which": "sync", "profile": "dev", "args": ["chain"], "oc": True}, {"which": "sync", "profile": "dev", "args": ["take"], "oc": True}]),
+        "tie": "T2 with a logging inner read-writer",
+        "rule": AD_RULE,
+    },
     "C19": {
         "module": "FBV.Props.C19",
         "theorems": ["FBV.C19.esc_printable", "FBV.C19.escape_printable", "FBV.C19.esc_identity", "FBV.C19.escape_append",
